@@ -20,6 +20,7 @@ CONSTANTS
   FundAcct2 = TRUE
   UseBuild = FALSE
   NChanges = {1}
+  QuietW2 = FALSE
   UseDiverge = FALSE
   UseAdv = TRUE
 SPECIFICATION Spec
